@@ -16,7 +16,7 @@ from collections import Counter, defaultdict
 import common
 from common import BUILD, COQ, VERIF, Infra, SplitMix, Lock, repo_hash, verif_hash, run
 
-NSCHED = 56
+NSCHED = 60
 TARGET_SCHED = os.path.join(BUILD, "target_sched")
 FAMILY_JSON = os.path.join(BUILD, "sched_family.json")
 HS = os.path.join(VERIF, "harness_sched")
@@ -99,10 +99,14 @@ def run_impl(cases, timeout=120):
         for item in list(running):
             p, meta, t0 = item
             if p.poll() is None:
-                if time.time() - t0 > timeout:
+                if time.time() - t0 > max(timeout, 3 * len(meta[2])):
                     p.kill()
+                    try:
+                        out = p.stdout.read()
+                    except Exception:  # noqa: BLE001
+                        out = ""
                     p.wait()
-                    results.append((meta, "", "timeout"))
+                    results.append((meta, out, "timeout"))
                     running.remove(item)
                 continue
             out = p.stdout.read()
@@ -132,7 +136,29 @@ def run_impl(cases, timeout=120):
         reap(True)
     for (k, pool, idxs, exe, inp), out, err in results:
         blocks = [b for b in re.split(r"(?m)^(?=run )", out) if b.strip()]
+        if err == "timeout":
+            # the whole group ran out of time (a loaded machine, or one run that really hangs): the last block may be
+            # cut short; every run without a complete block is repeated ON ITS OWN with a generous cap, and only a run
+            # that does not return then is reported as not terminating
+            complete = [b for b in blocks if re.search(r"(?m)^ref ", b) or re.search(r"(?m)^panic", b)]
+            blocks = complete
+            for j, i in enumerate(idxs):
+                if j < len(blocks):
+                    continue
+                c = cases[i]
+                e = dict(os.environ)
+                e["VERIF_POOL"] = str(pool)
+                e["RUST_BACKTRACE"] = "0"
+                try:
+                    q = subprocess.run([exe], input="run %d %d %d | %s\n" % (k, c["mode"], c["order"], c["spec"]), stdout=subprocess.PIPE,
+                                       stderr=subprocess.DEVNULL, text=True, env=e, timeout=300)
+                    bs = [b for b in re.split(r"(?m)^(?=run )", q.stdout) if b.strip()]
+                    obs[i] = parse_block(bs[0]) if bs else {"error": "rc=%d" % q.returncode if q.returncode else "no-output"}
+                except subprocess.TimeoutExpired:
+                    obs[i] = {"error": "timeout"}
         for j, i in enumerate(idxs):
+            if obs[i] is not None:
+                continue
             if j < len(blocks):
                 obs[i] = parse_block(blocks[j])
             else:
